@@ -347,6 +347,14 @@ Bad_DataAlign(M) ==
      IN ~(d.align = -1 \/ d.align \in Pow2) \/ (d.calign >= 0 /\ EffAlign(d) < d.calign)}}
 DataAlign(M) == Bad_DataAlign(M) = {}
 
+(* no symbol (function or data: one name space for the assembler) and no type is defined twice in a module *)
+Dups(names) == IF IsInjective(names) THEN {}
+               ELSE {names[i] : i \in {j \in DOMAIN names : \E k \in 1..(j - 1) : names[k] = names[j]}}
+Bad_NamesDefinedOnce(M) ==
+  Dups([i \in 1..(Len(M.data) + Len(M.funcs)) |-> IF i <= Len(M.data) THEN M.data[i].name ELSE M.funcs[i - Len(M.data)].name])
+  \cup Dups([i \in DOMAIN M.types |-> M.types[i].name])
+NamesDefinedOnce(M) == Bad_NamesDefinedOnce(M) = {}
+
 (* ------------------------------------------------------------------------ *)
 (* The judgement                                                             *)
 FuncFailures(M, F) ==
@@ -375,6 +383,7 @@ ModuleFailures(M) ==
     \cup R("DataItemsValid", Bad_DataItemsValid(M))
     \cup R("DataSize", Bad_DataSize(M))
     \cup R("DataAlign", Bad_DataAlign(M))
+    \cup R("NamesDefinedOnce", Bad_NamesDefinedOnce(M))
 
 (* DefDominatesUse at quiescence: every exposed use is available on entry, every phi operand at the end *)
 (* of its source block.                                                                                *)
